@@ -729,3 +729,6 @@ def check(rep):
     rule_states(rep)
     rule_reduce_fill(rep)
     rule_closure_shape(rep)
+    from .C15 import rule_swap_restore
+
+    rule_swap_restore(rep)  # FOLLOW / items are computed for the start production asked for, and for no stale one
